@@ -1898,7 +1898,15 @@ class PGPKey(Armorable, ParentRef, PGPObject):
         key._parent = self
 
         ##TODO: skip this step if the key already has a subkey binding signature
-        bsig = self.bind(key, **prefs)
+        try:
+            bsig = self.bind(key, **prefs)
+
+        except Exception:
+            # binding was refused (e.g. this key has no user id yet, or is locked): do not keep an unbound subkey
+            del self._children[key.fingerprint.keyid]
+            key._parent = None
+            raise
+
         key |= bsig
 
     def _get_key_flags(self, user=None):
